@@ -1,4 +1,125 @@
-"""C18 entry points that need a FRI / STARK instance (filled in below)"""
+"""C18 entry points that need a FRI / STARK instance: fri_verify, stark_commit, stark_verify, eval_oods_boundary_poly_at_points.
+Geometry (step sizes, degree bound, blow-up, query positions) is concrete and accepted by the real validate; all contents are symbolic;
+vector lengths are honest +- 1 one at a time."""
+import z3
+
+from symex import F, RList, ResultV
+from sxval import SStruct, zi, deep_copy
+from sxlib import to_json
+import sxh
+import frimodel
+import starkmodel
+import c18
+from c18 import Entry, protected
+
+GEOS = [([0, 1], 0, 1, [1]), ([0, 2], 1, 1, [3, 9]), ([0, 1, 2], 0, 1, [6])]
+
+
+def b_fri_verify(h, shape):
+    (steps, bound, lnc, qs), tweak = shape
+    g = frimodel.geometry(steps, bound, lnc, qs)
+    inst = frimodel.fri_instance(h, g, nvf=F(0), tweak=dict(tweak))
+    cfg = inst["commitment"].fields["config"]
+    if "fri_step_sizes" not in dict(tweak):
+        protected(h, lambda: h.require_ok(h.call(sxh.F_FRICFG, "validate", [F(lnc), F(0)], owner="Config", self_val=cfg)))
+    for pt in inst["decommitment"].fields["points"]:
+        h.ex.assume(zi(pt) != 0)
+    inp = dict(inst)
+    inp["_request"] = lambda c: [{"fn": "fri_verify", "queries": to_json(c["queries"]), "commitment": to_json(c["commitment"]),
+                                  "decommitment": to_json(c["decommitment"]), "witness": to_json(c["witness"])}]
+    return inp, lambda: h.call(sxh.F_FRI, "fri_verify", [inst["queries"], inst["commitment"], inst["decommitment"], inst["witness"]])
+
+
+def fri_tweaks(g, reachable):
+    n = len(g[0])
+    T = [()]
+    if reachable:
+        T += [(("layers", -1),), (("layers", 1),)]
+        for i in range(n - 1):
+            T += [((("leaves", i), -1),), ((("leaves", i), 1),), ((("authentications", i), -1),), ((("authentications", i), 1),)]
+        T += [(("fri_step_sizes", 1),)]
+    else:
+        T += [(("points", -1),), (("values", -1),), (("values", 1),), (("queries", -1),), (("queries", 1),), (("inner_layers", -1),), (("eval_points", -1),),
+              (("fri_step_sizes", -1),)]
+    return T
+
+
+def b_stark_commit(h, shape):
+    (steps, bound, lnc, qs), n_oods, tweak = shape
+    g = frimodel.geometry(steps, bound, lnc, qs)
+    c = starkmodel.commit_inputs(h, g, n_oods, tweak=dict(tweak))
+    cfg = c["cfg"]
+    sec, n1, n2 = h.felt("sec"), h.felt("n1"), h.felt("n2")
+    if not any(k in dict(tweak) for k in ("config_inner_layers", "fri_step_sizes")) or True:
+        protected(h, lambda: h.require_ok(h.call(sxh.F_STARKCFG, "validate", [sec, n1, n2], owner="StarkConfig", self_val=cfg)))
+    dom = protected(h, lambda: starkmodel.domains(h, cfg))
+    inp = dict(c)
+    inp.update(sec=sec, n1=n1, n2=n2, dom=dom)
+    inp["_request"] = lambda cc: [starkmodel.commit_request(cc, cc["dom"]), c18.validate_req(cc)]
+    return inp, lambda: h.call(sxh.F_COMMIT, "stark_commit", [c["tr"], c["pi"], c["un"], cfg, dom])
+
+
+def b_stark_verify(h, shape):
+    (steps, bound, lnc, qs), n0, n1, n_oods, tweak = shape
+    g = frimodel.geometry(steps, bound, lnc, qs)
+    consts = starkmodel.layout_consts(h.ex)
+    c = starkmodel.verify_inputs(h, g, n0, n1, n_oods, consts, tweak=dict(tweak))
+    cfg = sxh.stark_config_concrete(h, "cfg", steps, bound, lnc)
+    dom = protected(h, lambda: starkmodel.domains(h, cfg))
+    inp = dict(c)
+    inp["dom"] = dom
+    inp["_request"] = lambda cc: [starkmodel.verify_request(cc, cc["dom"])]
+    return inp, lambda: h.call(sxh.F_VERIFY, "stark_verify", [n0, n1, c["pi"], c["qs"], c["com"], c["wit"], dom])
+
+
+def b_eval_oods(h, shape):
+    npts, n0, n1, tweak, n_oods = shape
+    tw = dict(tweak)
+    consts = starkmodel.layout_consts(h.ex)
+    pi = starkmodel.public_input(h)
+    info = SStruct("OodsEvaluationInfo", {"oods_values": h.felts("oods", n_oods), "oods_point": h.felt("z"), "trace_generator": h.felt("tg"),
+                                          "constraint_coefficients": h.felts("oc", consts["MASK_SIZE"] + consts["CONSTRAINT_DEGREE"])}, h.w.mod(sxh.F_OODS))
+    pts = h.felts("pt", npts)
+    dec = h.struct(sxh.F_TRACE, "Decommitment", "dec", {"dec.original.values": max(0, npts * n0 + tw.get("original", 0)),
+                                                         "dec.interaction.values": max(0, npts * n1 + tw.get("interaction", 0))})
+    cdec = h.struct(sxh.F_TTYPES, "Decommitment", "cdec", {"cdec.values": max(0, npts * consts["CONSTRAINT_DEGREE"] + tw.get("composition", 0))})
+    inp = {"n0": n0, "n1": n1, "pi": pi, "info": info, "pts": pts, "dec": dec, "cdec": cdec}
+    inp["_request"] = lambda c: [{"fn": "eval_oods_boundary_poly_at_points", "n_original_columns": c["n0"], "n_interaction_columns": c["n1"],
+                                  "public_input": to_json(c["pi"]), "oods_values": to_json(c["info"].fields["oods_values"]),
+                                  "oods_point": to_json(c["info"].fields["oods_point"]), "trace_generator": to_json(c["info"].fields["trace_generator"]),
+                                  "constraint_coefficients": to_json(c["info"].fields["constraint_coefficients"]), "points": to_json(c["pts"]),
+                                  "decommitment": to_json(c["dec"]), "composition_decommitment": to_json(c["cdec"])}]
+    return inp, lambda: h.call(sxh.F_OODS, "eval_oods_boundary_poly_at_points", [n0, n1, pi, info, pts, dec, cdec])
+
 
 def entries(tier):
-    return []
+    E = []
+    geos = GEOS if tier == "quick" else GEOS + [([0, 2, 1], 1, 2, [5, 37]), ([0, 1, 1], 1, 1, [0, 7])]
+    toy = dict(toy=True, abstract=lambda w: starkmodel.abstract_layout(None), types=starkmodel.toy_types)
+    fv = [sxh.F_FRI + "::fri_verify", sxh.F_FRI + "::fri_verify_layers", sxh.F_LAYER + "::compute_next_layer", sxh.F_LAYER + "::compute_coset_elements",
+          sxh.F_FIRST + "::gather_first_layer_queries", sxh.F_LAST + "::verify_last_layer"]
+    E.append(Entry("fri_verify", fv, [(g, t) for g in geos for t in fri_tweaks(g, True)], b_fri_verify, int_bound=17, max_paths=400, budget_s=240,
+                   pre="commitment as fri_commit returns it for a config accepted by fri::Config::validate; queries sorted / unique / in range and as many "
+                       "values and non-zero points as queries (generate_queries, queries_to_points, eval_oods_boundary_poly_at_points)",
+                   bounds="geometries %s; witness.layers, each leaves / authentications vector, fri_step_sizes: honest length and +-1 one at a time; contents symbolic" % (geos,),
+                   info=Entry("fri_verify", fv, [(g, t) for g in geos[:2] for t in fri_tweaks(g, False)[1:]], b_fri_verify, int_bound=17,
+                              pre="none (decommitment / commitment lengths that stark_verify / fri_commit cannot produce)")))
+    E.append(Entry("stark_commit", [sxh.F_COMMIT + "::stark_commit", sxh.F_OODS + "::verify_oods", sxh.F_FRI + "::fri_commit", sxh.F_POW + "::commit"],
+                   [(geos[0], L, ()) for L in range(0, 8)] + [(g, 5, t) for g in geos[:2] for t in ((("unsent_inner_layers", -1),), (("unsent_inner_layers", 1),),
+                                                                                                   (("last_layer_coefficients", -1),), (("last_layer_coefficients", 1),))],
+                   b_stark_commit, int_bound=17, budget_s=240, pre="StarkConfig::validate(config) is Ok; domains = StarkDomains::new(config..)",
+                   bounds="ToyLayout (MASK_SIZE 3, CONSTRAINT_DEGREE 2, evaluators uninterpreted); oods_values.len() in 0..=7; unsent FRI vectors honest +-1", **toy))
+    sv = [sxh.F_VERIFY + "::stark_verify", sxh.F_OODS + "::eval_oods_boundary_poly_at_points", sxh.F_QUERIES + "::queries_to_points", sxh.F_FRI + "::fri_verify"]
+    wt = [(), (("original_values", -1),), (("original_values", 1),), (("interaction_values", -1),), (("composition_values", -1),), (("composition_values", 1),),
+          (("original_auth", -1),), (("composition_auth", -1),), (("composition_auth", 1),), (("layers", -1),), ((("leaves", 0), -1),), ((("authentications", 0), -1),)]
+    E.append(Entry("stark_verify", sv, [(geos[0], 1, 1, 5, t) for t in wt] + [(geos[1], 2, 1, 5, ()), (geos[0], 1, 1, 4, ()), (geos[0], 1, 1, 6, ())],
+                   b_stark_verify, int_bound=17, max_paths=600, budget_s=280,
+                   pre="commitment as stark_commit returns it (validated config); queries sorted / unique / in range",
+                   bounds="ToyLayout; 1-2 queries; witness vectors honest +-1 one at a time; oods_values.len() in {4,5,6}", **toy))
+    eo = [sxh.F_OODS + "::eval_oods_boundary_poly_at_points"]
+    E.append(Entry("eval_oods_boundary_poly_at_points", eo, [(p, n0, n1, (), L) for p in (0, 1, 2) for n0, n1 in ((1, 1), (2, 1)) for L in (0, 5, 6)], b_eval_oods,
+                   pre="decommitment lengths = points.len() * columns (enforced by the table_decommit calls that precede it in stark_verify)",
+                   bounds="ToyLayout; 0..2 points; (n_original, n_interaction) in {(1,1),(2,1)}",
+                   info=Entry("eval_oods_boundary_poly_at_points", eo, [(1, 1, 1, ((k, d),), 5) for k in ("original", "interaction", "composition") for d in (-1, 1)],
+                              b_eval_oods, pre="none", **toy), **toy))
+    return E
